@@ -933,7 +933,7 @@ func renderJS(ctx *reporter, work string, reg *template.Registry, cats []*catalo
 			var out, errb bytes.Buffer
 			cmd.Stdout, cmd.Stderr = &out, &errb
 			if err := cmd.Run(); err != nil {
-				results[i].err = fmt.Errorf("%v: %s", err, trunc(errb.String(), 500))
+				results[i].err = fmt.Errorf("%v: %s", err, trunc(errb.String(), 3000))
 				return
 			}
 			var r struct {
